@@ -1,7 +1,7 @@
 package server
 
 // C07_percent: the persistence delay "a share of the expiry" (expiry flag 0x1000, 30 % by
-// default).  A hold with E in {20, 140, 200, 600} s (delay 6 / 42 / 60 / 180 s) is left alone while the clock
+// default).  A hold with E in {20, 140, 200, 600, 852, 1000} s (delay 6 / 42 / 60 / 180 / 255 / 300 s) is left alone while the clock
 // advances second by second through the real sweeps; once it is older than its delay (plus the
 // sweep's granularity) it must have been persisted.
 
@@ -17,14 +17,14 @@ func vfH_C07_percent() {
 	vfSetDBTime(env.db, vfBaseTime)
 	vfOpenAof(env, dir)
 	key := vfKey(1)
-	E := [4]uint16{20, 140, 200, 600}[vfChoice("E", 4)]
+	E := [6]uint16{20, 140, 200, 600, 852, 1000}[vfChoice("E", 6)]
 	c := env.newCmd(protocol.COMMAND_LOCK, key, vfLockId(1))
 	c.Expried, c.ExpriedFlag = E, protocol.EXPRIED_FLAG_AOF_TIME_OF_EXPRIED_PARCENT
 	env.lock(0, c)
 	hs := vfHolders(env.manager(key))
 	vfAssert(len(hs) == 1, "C07: harness: lock not granted")
-	delay := int64(hs[0].aofTime)
-	vfAssert(delay == int64(float64(E)*0.3), "C07: harness: unexpected persistence delay")
+	// the configured delay: 30 % of the expiry (the server keeps it in one byte: E = 852 gives 255, E = 1000 gives 300)
+	delay := int64(float64(E) * 0.3)
 	// the sweeps look at a hold at growing intervals; allow the delay plus 15 s
 	last := delay + 15
 	if last > int64(E)-2 {
